@@ -11,6 +11,8 @@ from tiv.astutil import flatten_boolop, body_walk, call_name, dotted, enclosing_
 from tiv.cfg import CFG, fmt_path
 from tiv.constfold import UNKNOWN, Folder
 from tiv.mutate import M
+from tiv.match import match_expr, match_stmt, find_stmts
+from tiv.sem import expand, same, same_bool, origin, literals, lit
 
 RULES = {
     "R1": "query sites are siblings: every request passed to query_terminal ends with DA1 (the sentinel every terminal answers); the stop "
@@ -51,8 +53,8 @@ def run(ck, m):
                 sites.append((rel, q, fn, c))
     ck.expect(len(sites) >= 4, f"expected >= 4 call sites of query_terminal, found {len(sites)}")
     for rel, q, fn, c in sites:
-        req = c.args[0] if c.args else kw(c, "request")
-        more = c.args[1] if len(c.args) > 1 else kw(c, "more")
+        req = expand(fn, c.args[0] if c.args else kw(c, "request"))
+        more = expand(fn, c.args[1] if len(c.args) > 1 else kw(c, "more"))
         parts = [(dotted(p) or "?").split(".")[-1] for p in _concat(req)]
         ck.ob("R1", enclosing_stmt(c), parts[-1] == "DA1_b", f"{q}: the request {parts} does not end with DA1_b: a terminal that ignores the first queries never completes the read (waits the whole timeout)",
               stmt=f"{q}: request ends with DA1: {'+'.join(parts)}")
@@ -78,10 +80,10 @@ def run(ck, m):
             drains = [d for d in body_walk(fn) if isinstance(d, ast.Call) and call_name(d) == "read_tty" and not d.args and not d.keywords]
             okd = False
             for d in drains:
-                same = bool(ws) and any(w in ws for w in with_context(d))
+                same_lock = bool(ws) and any(w in ws for w in with_context(d))
                 guarded = any(norm(t) == "_queries_enabled" and b for t, b in guards(d))
                 after = d.lineno > c.lineno
-                if same and guarded and after:
+                if same_lock and guarded and after:
                     okd = True
             ck.ob("R1", enclosing_stmt(c), okd, f"{q}: the read stops at the start of the DA1 reply; the rest must be drained by `read_tty()` under `if _queries_enabled` inside the same lock block, "
                   "otherwise reply bytes remain unread on the terminal (or are stolen by another reader)", stmt=f"{q}: DA1 tail drained inside the lock block")
@@ -96,7 +98,8 @@ def run(ck, m):
             ck.ob("R1", enclosing_stmt(c), (call_name(c) or "").endswith("tcsetattr") and "TCSAFLUSH" not in norm(c),
                   f"read_tty discards queued input (`{short(c, 60)}`): a reply that arrived between the request and the start of the read loop is lost", stmt=f"read_tty: {short(c, 70)} does not flush")
     rd = [c for c in body_walk(qt) if isinstance(c, ast.Call) and call_name(c) == "read_tty"]
-    ck.ob("R4", qt, len(rd) == 1 and [norm(a) for a in rd[0].args] == ["more", "timeout or _query_timeout"], "query_terminal must read with `timeout or _query_timeout` (never without a time limit)", stmt="query_terminal: read_tty(more, timeout or _query_timeout)")
+    ck.ob("R4", qt, len(rd) == 1 and len(rd[0].args) == 2 and same(qt, rd[0].args[0], "more") and same(qt, rd[0].args[1], "timeout or _query_timeout"),
+          "query_terminal must read with `timeout or _query_timeout` (never without a time limit)", stmt="query_terminal: read_tty(more, timeout or _query_timeout)")
 
     # ---- R2 ----------------------------------------------------------------------------
     resp = env.get("class:Response", {})
@@ -134,29 +137,51 @@ def run(ck, m):
     parts = None
     for rel, q, fn, c in sites:
         if fn.name == "get_fg_bg_colors":
-            parts = [(dotted(p) or "?").split(".")[-1] for p in _concat(c.args[0])]
+            parts = [(dotted(p) or "?").split(".")[-1] for p in _concat(expand(fn, c.args[0]))]
     ck.ob("R2", fg, parts == ["TEXT_FG_QUERY_b", "TEXT_BG_QUERY_b", "DA1_b"], f"get_fg_bg_colors must request FG then BG then DA1; found {parts}", stmt="get_fg_bg_colors: request table")
     gcs = m.get(U, "get_cell_size")
-    revs = [(st, norm(st.targets[0])) for st in body_walk(gcs) if isinstance(st, ast.Assign) and norm(st.value).endswith("[::-1]") and "match.groups()" in norm(st.value)]
-    ck.ob("R2", gcs, sorted(t for _, t in revs) == ["cell_size", "text_area_size"], f"XTWINOPS reports (height, width): both the cell-size and the text-area branch must reverse the groups exactly once; found {[t for _, t in revs]}", stmt="get_cell_size: (h, w) reversed once per branch")
-    mt = {}
+    branches = {}
     for n in body_walk(gcs):
         if isinstance(n, ast.NamedExpr) and isinstance(n.value, ast.Call) and norm(n.value.func).endswith("_re.match"):
             iff = n._p
             while iff is not None and not isinstance(iff, ast.If):
                 iff = iff._p
-            tg = next((norm(t) for s in iff.body for t, st in stores_in(s) if "match.groups()" in norm(getattr(st, "value", None))), None)
-            mt[norm(n.value.func).split(".")[-2]] = tg
-    ck.ob("R2", gcs, mt == {"CELL_SIZE_PX_re": "cell_size", "TEXT_AREA_SIZE_PX_re": "text_area_size"}, f"reply patterns must feed the matching variable; found {mt}", stmt="get_cell_size: pattern -> variable")
+            branches[norm(n.value.func).split(".")[-2]] = (iff, norm(n.target))
+    ck.expect(set(branches) == {"CELL_SIZE_PX_re", "TEXT_AREA_SIZE_PX_re"}, f"get_cell_size: reply-pattern branches recognised: {sorted(branches)}")
+    want = {"CELL_SIZE_PX_re": "cell_size", "TEXT_AREA_SIZE_PX_re": "text_area_size"}
+    for pat_, (iff, mv) in branches.items():
+        stored = [st for s_ in iff.body for t, st in stores_in(s_) if isinstance(t, ast.Name) and t.id in ("cell_size", "text_area_size") and isinstance(st, ast.Assign)]
+        tgt = {norm(t) for st in stored for t in st.targets}
+        ck.ob("R2", iff, tgt == {want[pat_]}, f"the reply matched by {pat_} must feed `{want[pat_]}`; the branch stores {sorted(tgt)}", stmt=f"get_cell_size: {pat_} -> {want[pat_]}")
+        # (height, width) -> (width, height): reversed exactly once
+        verdict = None
+        first = next((st for st in stored if norm(st.targets[0]) == want[pat_]), None)
+        if first is not None:
+            v = first.value
+            if match_expr(f"tuple(map(int, {mv}.groups()))[::-1]", v) is not None:
+                verdict = True
+            elif match_expr(f"tuple(map(int, {mv}.groups()))", v) is not None:
+                verdict = False
+            elif isinstance(v, ast.Tuple) and len(v.elts) == 2 and all(isinstance(e, ast.Name) for e in v.elts):
+                un = next((st for s_ in iff.body for st in walk_local(s_) if isinstance(st, ast.Assign) and isinstance(st.targets[0], ast.Tuple) and len(st.targets[0].elts) == 2
+                           and f"{mv}.groups()" in norm(st.value) and st.lineno < first.lineno), None)
+                if un is not None:
+                    a_, b_ = [norm(e) for e in un.targets[0].elts]
+                    verdict = [norm(e) for e in v.elts] == [b_, a_] if [norm(e) for e in v.elts] in ([a_, b_], [b_, a_]) else None
+        ck.expect(verdict is not None, f"get_cell_size: how the {pat_} reply is turned into {want[pat_]} is not in a recognised form")
+        if verdict is not None:
+            ck.ob("R2", first, verdict, f"XTWINOPS reports (height, width): the groups of the {pat_} reply must be reversed exactly once to give (width, height)", stmt=f"get_cell_size: {pat_} groups reversed once")
     # window-size swap covers every source of text_area_size
     g = CFG(gcs)
     swap_tests = [n for n in g.nodes if n.kind == "test" and norm(n.ast) == "_swap_win_size"]
     uses = [n for n in g.nodes if n.kind == "stmt" and isinstance(n.ast, ast.Assign) and norm(n.ast.targets[0]) == "cell_size" and "floordiv" in norm(n.ast.value)]
     ck.expect(len(swap_tests) >= 1 and len(uses) == 1, "get_cell_size: swap test / cell-size computation not recognised")
     if swap_tests and len(uses) == 1:
-        defs = [n for n in g.nodes if n.kind == "stmt" and isinstance(n.ast, ast.Assign) and any(norm(t) == "text_area_size" for t in n.ast.targets)
-                and not norm(n.ast.value).endswith("text_area_size[::-1]") and norm(n.ast.value) != "(0, 0)" and "cell_size = text_area_size" not in norm(n.ast)]
-        srcdefs = [d for d in defs if "buf" in norm(d.ast.value) or "match.groups()" in norm(d.ast.value)]
+        def is_const(v):
+            return all(isinstance(x, (ast.Constant, ast.Tuple, ast.List, ast.Load)) for x in ast.walk(v))
+        defs = [n for n in g.nodes if n.kind == "stmt" and isinstance(n.ast, ast.Assign) and any(norm(t) == "text_area_size" for t in n.ast.targets)]
+        # sources = stores that do not derive the new value from text_area_size itself (swap, Termux scaling) and are not the constant initialiser
+        srcdefs = [d for d in defs if not is_const(d.ast.value) and not any(isinstance(x, ast.Name) and x.id == "text_area_size" for x in ast.walk(d.ast.value))]
         ck.expect(len(srcdefs) >= 2, "get_cell_size: the two sources of text_area_size (ioctl, XTWINOPS) not recognised")
         for d in srcdefs:
             p = g.search([d], lambda n: n in uses, avoid=lambda n: n in swap_tests, edge_ok=lambda s, lab, x: not lab.startswith(("e:", "p:")))
@@ -173,7 +198,9 @@ def run(ck, m):
     ck.ob("R3", comps[0], not outside and lens and all(x == var for x in lens),
           f"the scale applied to a colour component must be computed from that component's own width inside the comprehension; it uses {sorted(outside) or lens}: with mixed-width components "
           "(rgb:f/ffff/f) a value exceeds 255", stmt="x_parse_color: per-component scale")
-    ck.ob("R3", comps[0], "* 255 //" in norm(comps[0].elt) and "<<" in norm(comps[0].elt) and "- 1" in norm(comps[0].elt), "component must be scaled as value*255 // (2**(4*digits) - 1)", stmt="x_parse_color: scale formula")
+    e_ = comps[0].elt
+    okf = isinstance(e_, ast.BinOp) and isinstance(e_.op, ast.FloorDiv) and "* 255" in norm(e_.left) and f"len({var})" in norm(e_.right) and norm(e_.right).rstrip(")").endswith("- 1")
+    ck.ob("R3", comps[0], okf, "component must be scaled as value*255 // (16**digits - 1)", stmt="x_parse_color: scale formula")
 
     # ---- R4 ----------------------------------------------------------------------------
     first = next(s for s in qt.body if not (isinstance(s, ast.Expr) and isinstance(s.value, ast.Constant)))
@@ -195,26 +222,48 @@ def run(ck, m):
     ck.ob("R4", sq, any(isinstance(s, ast.If) and norm(s.test) == "timeout <= 0.0" and isinstance(s.body[0], ast.Raise) for s in sq.body), "set_query_timeout must reject a non-positive timeout", stmt="set_query_timeout rejects <= 0")
 
     # ---- R6 ----------------------------------------------------------------------------
-    wl = [n for n in body_walk(rt) if isinstance(n, ast.While)]
-    timed = next((w for w in wl if "more(input)" in norm(w.test)), None)
-    poll = next((w for w in wl if "more(input)" not in norm(w.test)), None)
-    ck.expect(timed is not None and poll is not None, "read_tty: the polling loop / timed loop not recognised")
-    if timed is not None and poll is not None:
-        conj = [norm(v) for v in flatten_boolop(timed.test, ast.And)]
-        ck.ob("R6", timed, conj == ["timeout < 0 or duration < timeout", "more(input)"], f"the timed loop must run while (timeout < 0 or duration < timeout) and more(input); found {conj}", stmt="read_tty: loop condition bounds the wait")
-        sel = [c for c in walk_local(timed) if isinstance(c, ast.Call) and call_name(c) == "select"]
-        ck.ob("R6", timed, len(sel) == 1 and len(sel[0].args) == 4 and norm(sel[0].args[3]) == "None if timeout < 0 else timeout - duration",
-              f"select() must wait at most the remaining time `timeout - duration` (None only for an infinite timeout); found `{norm(sel[0].args[3]) if sel and len(sel[0].args) == 4 else None}`", stmt="read_tty: select waits the remaining time only")
-        upd = [s_ for s_ in timed.body if isinstance(s_, ast.Assign) and norm(s_) == "duration = monotonic() - start"]
-        ck.ob("R6", timed, len(upd) == 1 and timed.body[-1] is upd[0], "the elapsed time must be recomputed at the end of every iteration", stmt="read_tty: duration recomputed per iteration")
-        ck.ob("R6", timed, any(isinstance(c, ast.Call) and norm(c) == "os.read(_tty_fd, 1)" for c in walk_local(timed)), "the timed loop reads byte-wise so that the stop predicate sees every byte", stmt="read_tty: byte-wise reads in the timed loop")
-        psel = [c for c in ast.walk(poll.test) if isinstance(c, ast.Call) and call_name(c) == "select"]
-        ck.ob("R6", poll, len(psel) == 1 and norm(psel[0].args[3]) == "0.0", "the non-blocking mode must poll with a zero select timeout", stmt="read_tty: non-blocking poll")
-        st0 = [s_ for s_ in body_walk(rt) if isinstance(s_, ast.Assign) and norm(s_) == "start = monotonic()"]
-        ck.ob("R6", rt, len(st0) == 1 and st0[0].lineno < timed.lineno, "the clock must start before the first wait", stmt="read_tty: start = monotonic() before waiting")
-        vm = [s_ for s_ in body_walk(rt) if isinstance(s_, ast.Assign) and norm(s_.targets[0]) == "new_attr[6][termios.VMIN]"]
-        ck.ob("R6", rt, len(vm) == 2 and norm(vm[0].value) == "0 if timeout is None else min" and norm(vm[1].value) == "0" and any(norm(t) == "min > 0" and b for t, b in guards(vm[1])),
-              "VMIN must be `min` only for the initial blocking read and 0 afterwards (a later read must never block on a byte count)", stmt="read_tty: VMIN reset after the min-read")
+    # roles, not names: d = elapsed-time variable (`d = monotonic() - s`), s = clock start, buf = the argument of more()
+    upd_all = [(s_, b_) for s_ in body_walk(rt) for b_ in [match_stmt("$$d = monotonic() - $$s", s_)] if b_ is not None]
+    more_calls = [c for c in body_walk(rt) if isinstance(c, ast.Call) and call_name(c) == "more"]
+    ck.expect(bool(upd_all) and len({norm(b_["d"]) for _, b_ in upd_all}) == 1 and len(more_calls) == 1 and len(more_calls[0].args) == 1 and isinstance(more_calls[0].args[0], ast.Name),
+              "read_tty: elapsed-time variable / more(<buffer>) call not recognised")
+    if upd_all and len(more_calls) == 1 and isinstance(more_calls[0].args[0], ast.Name) and len({norm(b_["d"]) for _, b_ in upd_all}) == 1:
+        dv, sv, buf = norm(upd_all[0][1]["d"]), norm(upd_all[0][1]["s"]), more_calls[0].args[0].id
+        timed = more_calls[0]
+        while timed is not None and not isinstance(timed, ast.While):
+            timed = getattr(timed, "_p", None)
+        ck.expect(timed is not None, "read_tty: more() is not called from a loop")
+        if timed is not None:
+            # continuation condition = loop test AND the negation of every leading `if X: break`
+            conds_ = [] if (isinstance(timed.test, ast.Constant) and timed.test.value is True) else [timed.test]
+            k = 0
+            for s_ in timed.body:
+                if isinstance(s_, ast.If) and not s_.orelse and len(s_.body) == 1 and isinstance(s_.body[0], ast.Break):
+                    conds_.append(ast.UnaryOp(op=ast.Not(), operand=s_.test))
+                    k += 1
+                else:
+                    break
+            rest = timed.body[k:]
+            cont = conds_[0] if len(conds_) == 1 else ast.BoolOp(op=ast.And(), values=conds_) if conds_ else ast.Constant(value=True)
+            ck.ob("R6", timed, same_bool(rt, cont, f"(timeout < 0 or {dv} < timeout) and more({buf})"),
+                  f"the timed loop must run while (timeout < 0 or {dv} < timeout) and more({buf}); found `{short(cont, 120)}`", stmt="read_tty: loop condition bounds the wait")
+            sel = [c for c in walk_local(timed) if isinstance(c, ast.Call) and call_name(c) == "select"]
+            ck.ob("R6", timed, len(sel) == 1 and len(sel[0].args) == 4 and same(rt, sel[0].args[3], f"None if timeout < 0 else timeout - {dv}"),
+                  f"select() must wait at most the remaining time `timeout - {dv}` (None only for an infinite timeout); found `{norm(expand(rt, sel[0].args[3])) if sel and len(sel[0].args) == 4 else None}`", stmt="read_tty: select waits the remaining time only")
+            ck.ob("R6", timed, bool(rest) and match_stmt(f"{dv} = monotonic() - {sv}", rest[-1]) is not None, "the elapsed time must be recomputed at the end of every iteration", stmt="read_tty: duration recomputed per iteration")
+            ck.ob("R6", timed, any(isinstance(c, ast.Call) and norm(c) == "os.read(_tty_fd, 1)" for c in walk_local(timed)), "the timed loop reads byte-wise so that the stop predicate sees every byte", stmt="read_tty: byte-wise reads in the timed loop")
+            psel = [c for c in body_walk(rt) if isinstance(c, ast.Call) and call_name(c) == "select" and any(norm(t) == "timeout is None" and b_ for t, b_ in guards(c))]
+            ck.expect(bool(psel), "read_tty: no select() under `timeout is None` (non-blocking mode) recognised")
+            for c in psel:
+                ck.ob("R6", enclosing_stmt(c), len(c.args) == 4 and same(rt, c.args[3], "0.0"), "the non-blocking mode must poll with a zero select timeout", stmt="read_tty: non-blocking poll")
+            st0 = [s_ for s_ in body_walk(rt) if match_stmt(f"{sv} = monotonic()", s_) is not None]
+            ck.ob("R6", rt, len(st0) == 1 and st0[0].lineno < timed.lineno, "the clock must start before the first wait", stmt="read_tty: start = monotonic() before waiting")
+
+            def tgt_text(t):
+                return f"{norm(expand(rt, t.value))}[{norm(t.slice)}]" if isinstance(t, ast.Subscript) else norm(t)
+            vm = [s_ for s_ in body_walk(rt) if isinstance(s_, ast.Assign) and tgt_text(s_.targets[0]) == "new_attr[6][termios.VMIN]"]
+            ck.ob("R6", rt, len(vm) == 2 and same(rt, vm[0].value, "0 if timeout is None else min") and same(rt, vm[1].value, "0") and any(norm(t) == "min > 0" and b_ for t, b_ in guards(vm[1])),
+                  "VMIN must be `min` only for the initial blocking read and 0 afterwards (a later read must never block on a byte count)", stmt="read_tty: VMIN reset after the min-read")
 
     # ---- R5 ----------------------------------------------------------------------------
     st_ = next((s for s in m.tree(IM).body if isinstance(s, ast.Assign) and norm(s.targets[0]) == "_styles"), None)
@@ -227,8 +276,10 @@ def run(ck, m):
     ck.ob("R5", st_, styles[-1] in text_based and not (set(styles[:-1]) & text_based), "the text-based style must be the last resort", stmt="_styles: text-based last")
     ac = m.get(IM, "auto_image_class")
     loop = next((s for s in ac.body if isinstance(s, ast.For)), None)
-    ok = loop is not None and norm(loop.iter) == "_styles" and len(loop.body) == 1 and isinstance(loop.body[0], ast.If) and norm(loop.body[0].test) == f"{norm(loop.target)}.is_supported()" \
-        and isinstance(loop.body[0].body[0], ast.Break) and not loop.orelse and isinstance(ac.body[-1], ast.Return) and norm(ac.body[-1].value) == norm(loop.target)
+    lv_ = norm(loop.target) if loop is not None else "?"
+    ok = loop is not None and norm(loop.iter) == "_styles" and len(loop.body) == 1 and isinstance(loop.body[0], ast.If) and norm(loop.body[0].test) == f"{lv_}.is_supported()" \
+        and len(loop.body[0].body) == 1 and not loop.body[0].orelse and (isinstance(loop.body[0].body[0], ast.Break) or (isinstance(loop.body[0].body[0], ast.Return) and norm(loop.body[0].body[0].value) == lv_)) \
+        and not loop.orelse and isinstance(ac.body[-1], ast.Return) and norm(ac.body[-1].value) == lv_
     ck.ob("R5", ac, ok, "auto_image_class must return the first class of _styles whose is_supported() is true, else the last one", stmt="auto_image_class: first supported else last")
     ks = m.get(KT, "KittyImage.is_supported")
     isup = m.get(IT, "ITerm2Image.is_supported")
@@ -251,13 +302,14 @@ def run(ck, m):
                 out.append((type(n.ops[0]).__name__, tuple(e.value for e in n.comparators[0].elts)))
         return out
     ops = conj_operands(ks)
-    ck.ob("R5", ks, {"response['id'] == '31'", "response['message'] == 'OK'"} <= ops, f"kitty support needs the OK reply (id 31) to the graphics query; conditions found: {sorted(o for o in ops if 'response' in o)}", stmt="KittyImage.is_supported: OK reply")
+    ops_any = {re.sub(r"^\w+\[", "R[", o) for o in ops}
+    ck.ob("R5", ks, {"R['id'] == '31'", "R['message'] == 'OK'"} <= ops_any, f"kitty support needs the OK reply (id 31) to the graphics query; conditions found: {sorted(o for o in ops if 'response' in o)}", stmt="KittyImage.is_supported: OK reply")
     ck.ob("R5", ks, any(p_ == "KITTY_SUPPORT_QUERY_b" for rel, q, fn, c in sites if fn is ks for p_ in [(dotted(x) or "?").split(".")[-1] for x in _concat(c.args[0])]), "kitty support must be probed with KITTY_SUPPORT_QUERY", stmt="KittyImage.is_supported: probes with KITTY_SUPPORT_QUERY")
     ck.ob("R5", ks, version_bounds(ks) == [("GtE", (0, 20, 0))] and "name == 'kitty'" in ops and any(isinstance(n, ast.If) and norm(n.test) == "name == 'konsole'" for n in body_walk(ks)),
           f"kitty style is supported on kitty >= 0.20.0 or on konsole; version bounds found {version_bounds(ks)}", stmt="KittyImage.is_supported: version rule")
     ck.ob("R5", ks, env.get("KITTY_SUPPORT_QUERY", "").startswith("\x1b_Ga=q,") and "i=31" in env.get("KITTY_SUPPORT_QUERY", ""), "the support query must be an a=q command with id 31", stmt="KITTY_SUPPORT_QUERY: a=q, i=31")
     names = [set(e.value for e in n.comparators[0].elts) for n in body_walk(isup) if isinstance(n, ast.Compare) and isinstance(n.ops[0], ast.In) and isinstance(n.comparators[0], ast.Set)]
-    ck.ob("R5", isup, names == [{"iterm2", "konsole", "wezterm"}] and version_bounds(isup) == [("GtE", (22, 4, 0))] and any(norm(n) == "name != 'konsole'" for n in body_walk(isup)),
+    ck.ob("R5", isup, names == [{"iterm2", "konsole", "wezterm"}] and version_bounds(isup) == [("GtE", (22, 4, 0))] and any(norm(n) in ("name != 'konsole'", "name == 'konsole'") for n in body_walk(isup)),
           f"iterm2 style is supported on iterm2, wezterm, or konsole >= 22.4.0; found names {names}, bounds {version_bounds(isup)}", stmt="ITerm2Image.is_supported: rule")
     for fn_, nm in ((ks, "KittyImage"), (isup, "ITerm2Image")):
         ini = next((st for t, st in stores_in(ast.Module(body=fn_.body, type_ignores=[])) if norm(t) == "cls._supported" and norm(st.value) == "False"), None)
